@@ -63,8 +63,19 @@ def depth_of(doc, limit=400) -> int:
     return depth
 
 
-def load_module(source: str):
+LIB_TOKEN = "__C20_LIB__"
+
+
+def load_module(source: str, lib: str | None = None):
+    """lib: source of a second module ("third-party" types, NamedTuple/TypedDict/dataclasses with string annotations whose
+    names exist only there); the main source refers to it by the token __C20_LIB__"""
     _modcount[0] += 1
+    if lib is not None:
+        lname = f"c20_lib_{_modcount[0]}"
+        lmod = types.ModuleType(lname)
+        sys.modules[lname] = lmod
+        exec(compile(lib, f"<{lname}>", "exec", dont_inherit=True), lmod.__dict__)
+        source = source.replace(LIB_TOKEN, lname)
     name = f"c20_case_{_modcount[0]}"
     mod = types.ModuleType(name)
     sys.modules[name] = mod
@@ -74,6 +85,7 @@ def load_module(source: str):
 
 
 def unload(mod):
+    sys.modules.pop(mod.__name__.replace("c20_case_", "c20_lib_"), None)
     sys.modules.pop(mod.__name__, None)
 
 
@@ -268,7 +280,7 @@ def _run_case(case: dict, params: dict, stats: dict) -> dict:
     with warnings.catch_warnings():
         warnings.simplefilter("ignore")
         try:
-            mod = load_module(case["source"])
+            mod = load_module(case["source"], case.get("lib"))
         except Exception as e:
             return {"ok": None, "clause": "generator", "what": f"case module does not load: {type(e).__name__}: {e}"}
         try:
@@ -420,16 +432,14 @@ def classify(case: dict, res: dict) -> dict:
     msg = res.get("msg", "")
     kind = "other"
     if res.get("clause") == "total":
-        if exc == "TypeError" and "issubclass() arg 1 must be a class" in msg and last.get("selftype") and not last.get("final"):
+        if exc == "TypeError" and "issubclass() arg 1 must be a class" in msg and last.get("selftype"):
             kind = "self-type"
-        elif exc == "TypeError" and "issubclass() arg 1 must be a class" in msg and last.get("final") and not last.get("selftype"):
-            kind = "final-type"
         elif exc == "TypeError" and "doesn't apply to a 'CC' object" in msg and last.get("slots_hit"):
             kind = "slots-descriptor-default"
-        elif (exc in ("SyntaxError", "NameError") or (exc == "InvalidFieldValue" and "_default.<locals>.CC" in msg)) \
-                and last.get("omit_default_container"):
-            # (inside a Union the NameError of the spliced repr is re-raised by the union packer as InvalidFieldValue)
-            kind = "omit-default-repr-splice"
+        elif exc == "UnserializableField" and "_default.<locals>.CC" in msg and last.get("tp_field_default"):
+            kind = "default-ignores-field-strategy"
+        elif exc in ("NameError", "UnresolvedTypeReferenceError") and last.get("nt_fwd_default"):
+            kind = "default-forwardref-namedtuple"
         elif exc == "ValueError" and msg.startswith("mutable default") and last.get("nt_mutable"):
             kind = "nt-mutable-default"
         elif exc in ("RecursionError", "CaseTimeout") and last.get("cyclic") and not last.get("field_strategy_unannotated") and not last.get("field_override_container"):
